@@ -23,7 +23,8 @@ func init() {
 			"R6 the iterator returned by Scope.Iter assigns to no variable of the enclosing call (it can be run again). " +
 			"R7 scope operations never append to a slice belonging to an argument scope. " +
 			"R8 Contains compares the argument's action bits as a subset of the receiver's ((a&b) != b or b&^a != 0), never as an overlap; R9 a scope's actions are read at an index that is also used with the same scope's repositories. " +
-			"R10 Scope.String joins actions with a comma only under (both repository scopes, same repository); R1c an action name becomes a bit (parseKnownAction) only for a resource scope that passed isKnown(), or the result is tested.",
+			"R10 Scope.String joins actions with a comma only under (both repository scopes, same repository); R1c an action name becomes a bit (parseKnownAction) only for a resource scope that passed isKnown(), or the result is tested. " +
+			"R7b also: a slice handed to an exported constructor (NewScope(rss...)), and what slices.Compact/Delete/Clip make of it, is the caller's — it is never appended to, nor kept as a field that is appended to.",
 		NotDecided: "all algebraic laws over sets of triples (union/containment/membership/equality/length agree with the set model), strict ordering of Iter and the print/parse round trip are value-level and not decided.",
 		Technique:  "static analysis: SSA dominance of sentinel guards, predicate path analysis, return provenance",
 	})
